@@ -138,6 +138,9 @@ func H17_persist() {
 	vCompleteFileX(vFSBytes(path), sb, sp, ssp, "")
 }
 
+// vLastInputSpecs: reference semantics of the inputs returned by the last vMergeInputs call.
+var vLastInputSpecs []*sSpec
+
 func vMergeInputs() ([]segment.Segment, []*roaring.Bitmap, *sSpec) {
 	docs0, sp0 := vGenBatchFixed(gCfg{prefix: "a", idBase: "a", nDocs: 2, wide: -1,
 		fields: []gField{{name: "f", terms: []string{"a", "b"}, dv: true, store: true, fixFreq: true}}})
@@ -151,6 +154,7 @@ func vMergeInputs() ([]segment.Segment, []*roaring.Bitmap, *sSpec) {
 	drop := roaring.New()
 	drop.Add(1)
 	want, _ := sMergeSpecs([]*sSpec{sp0, sp1}, [][]bool{{false, true}, nil})
+	vLastInputSpecs = []*sSpec{sp0, sp1}
 	return []segment.Segment{s0, s1}, []*roaring.Bitmap{drop, nil}, want
 }
 
@@ -173,7 +177,9 @@ func H17_merge() {
 	saved := DefaultFileMergerBufferSize
 	defer func() { DefaultFileMergerBufferSize = saved }()
 	DefaultFileMergerBufferSize = vParam("mergeBuf", 64)
+	vPoolDeterministic()
 	segs, drops, want := vMergeInputs()
+	inSpecs := vLastInputSpecs
 	var wantSyn *sSynSpec
 	opened := 0
 	switch vChoice("inputs", 3) {
@@ -191,6 +197,7 @@ func H17_merge() {
 	case 2:
 		segs, drops, wantSyn = vSynMergeInputs()
 		want = nil
+		inSpecs = nil
 	}
 	path := vP("m.zap")
 	vFSFailWrites(path)
@@ -199,6 +206,13 @@ func H17_merge() {
 	vFSDisarm()
 	vAssert(vFSOpenHandles() == opened, "handle-closed")
 	vAssert(len(segs) == 2 && segs[0] != nil, "inputs-alive")
+	// whatever the outcome, the inputs stay fully usable and the shared scratch pool holds no object twice
+	for i, isp := range inSpecs {
+		sCheckStored(segs[i], isp, "input-")
+	}
+	g1 := visitDocumentCtxPool.Get().(*visitDocumentCtx)
+	g2 := visitDocumentCtxPool.Get().(*visitDocumentCtx)
+	vAssert(g1 != g2, "pool-two-owners")
 	if err != nil {
 		vAssert(!vFSExists(path), "error-no-file")
 		return
@@ -246,6 +260,8 @@ func (s *vCancelStats) ReportBytesWritten(uint64) {
 
 // H18_cancel: the close channel becomes closed at any poll of the merge (or before the call).
 func H18_cancel() {
+	vPoolDeterministic()
+	vLastInputSpecs = nil
 	var segs []segment.Segment
 	var drops []*roaring.Bitmap
 	var want *sSpec
@@ -284,6 +300,15 @@ func H18_cancel() {
 	_, size, err := z.Merge(segs, drops, path, ch, st)
 	vAssert(vFSOpenHandles() == opened, "handle-closed")
 	vAssert(len(segs) == 2 && segs[0] != nil, "inputs-alive")
+	// whatever the outcome, the inputs stay fully usable and the shared scratch pool holds no object twice
+	for i, isp := range vLastInputSpecs {
+		sCheckStored(segs[i], isp, "input-")
+		sCheckPostings(segs[i], isp, "input-")
+	}
+	g1 := visitDocumentCtxPool.Get().(*visitDocumentCtx)
+	g2 := visitDocumentCtxPool.Get().(*visitDocumentCtx)
+	vAssert(g1 != g2, "pool-two-owners")
+	vSentinelsIntact()
 	vNote(fmt.Sprint("merge-returned-err=", err != nil, "-writes=", st.writes))
 	if err != nil {
 		vAssert(err == segment.ErrClosed, "err-is-closed")
